@@ -84,9 +84,17 @@ def prune_caches(keep_digest: str) -> None:
     root = VERIF / ".cache" / "numba"
     if not root.is_dir():
         return
+    # another check may be running against another tree (a scratch copy) at this very moment: only directories that nobody
+    # has touched for six hours are removed (they are a few hundred kB each)
+    now = time.time()
     for d in root.iterdir():
-        if d.is_dir() and not d.name.endswith(keep_digest):
-            shutil.rmtree(d, ignore_errors=True)
+        try:
+            if d.is_dir() and not d.name.endswith(keep_digest) and now - d.stat().st_mtime > 6 * 3600:
+                shutil.rmtree(d, ignore_errors=True)
+            elif d.is_dir() and d.name.endswith(keep_digest):
+                os.utime(d, None)
+        except OSError:
+            pass
 
 
 def warm_up(specs: list) -> None:
@@ -117,9 +125,12 @@ def warm_up(specs: list) -> None:
     for marker, p in procs:
         try:
             if p.wait(timeout=900) == 0:
+                Path(marker).parent.mkdir(parents=True, exist_ok=True)
                 Path(marker).write_text("ok")
         except subprocess.TimeoutExpired:
             p.kill()
+        except OSError:
+            pass  # the marker only saves time
 
 
 def run_shard(prop: str, spec: dict, workdir: Path) -> dict:
